@@ -165,3 +165,30 @@ Lemma wf_value v : wf_osrc (XValue v) -> wf_source (SValue v).
 Proof. destruct v; auto. Qed.
 Lemma wf_text_src t o : wf_osrc (XText t o) -> wf_source (SText t o).
 Proof. auto. Qed.
+
+(* ---- case lemmas: which denotations occur ---- *)
+Lemma den_col_cases s : den_col s = DRefuse \/ den_col s = DKeep \/ exists a r g b, den_col s = DVal (PCol a r g b).
+Proof.
+  destruct s as [t o|v|x]; cbn [den_col]; auto.
+  - destruct t as [[|c t]|]; auto.
+    destruct (spec_colour_strict (c :: t)) as [[[[a r] g] b]|]; [eauto 8|].
+    unfold bytes in *. destruct (color_parse (Some (c :: t))) as [col|]; auto. unfold pcol. eauto 8.
+  - destruct v; auto; [|eauto 8].
+    destruct s as [[|c t]|]; [eauto 8| |eauto 8].
+    destruct (spec_colour_strict (c :: t)) as [[[[a r] g] b]|]; [eauto 8|].
+    unfold bytes in *. destruct (color_parse (Some (c :: t))) as [col|]; auto. unfold pcol. eauto 8.
+Qed.
+
+Lemma den_attr_cases c hi s :
+  den_attr (Some (PInt c)) hi s = DRefuse \/ den_attr (Some (PInt c)) hi s = DDefault \/
+  den_attr (Some (PInt c)) hi s = DKeep \/ exists v, den_attr (Some (PInt c)) hi s = DVal (PInt v).
+Proof.
+  unfold den_attr.
+  destruct (match src_number NU8 s with CErr _ => src_number NI32 s | x => x end); auto.
+  - destruct ((c <? 0) || (hi <? c)); auto.
+  - destruct ((nv_int v <? 0) || (hi <? nv_int v)); eauto.
+Qed.
+
+Lemma den_pt_cases rmax s :
+  den_pt rmax s = DRefuse \/ den_pt rmax s = DDefault \/ exists x y, den_pt rmax s = DVal (PPt x y).
+Proof. unfold den_pt. destruct (fpoint_set s 0%N rmax); eauto. Qed.
